@@ -17,6 +17,71 @@ func init() {
 
 var decRegexes = []string{"^a.*", "v[12]", "(", "", "b$", ".*", "canary", "v2"}
 
+// decodeObs runs the real decoder of rt over the resources and summarises what it returned.
+func decodeObs(c *ctx, rt string, anys []*anypb.Any) obj {
+	o := obj{}
+	var derr error
+	p, pmsg := recoverTo(func() {
+		switch rt {
+		case "lds":
+			m, err := xdsresource.UnmarshalLDS(anys)
+			derr = err
+			e := obj{}
+			for k, v := range m {
+				e[k] = listenerSummary(v)
+			}
+			o["entries"] = e
+		case "rds":
+			m, err := xdsresource.UnmarshalRDS(anys)
+			derr = err
+			e := obj{}
+			for k, v := range m {
+				e[k] = routeCfgSummary(v.(*xdsresource.RouteConfigResource))
+			}
+			o["entries"] = e
+		case "cds":
+			m, err := xdsresource.UnmarshalCDS(anys)
+			derr = err
+			e := obj{}
+			for k, v := range m {
+				e[k] = clusterSummary(v.(*xdsresource.ClusterResource))
+			}
+			o["entries"] = e
+		case "eds":
+			m, err := xdsresource.UnmarshalEDS(anys)
+			derr = err
+			e := obj{}
+			for k, v := range m {
+				e[k] = obj{"eps": endpointsSummary(v.(*xdsresource.EndpointsResource))}
+			}
+			o["entries"] = e
+		case "nds":
+			nt, err := xdsresource.UnmarshalNDS(anys)
+			derr = err
+			if nt != nil {
+				t := obj{}
+				for k, v := range nt.NameTable {
+					if v == nil {
+						v = []string{}
+					}
+					t[k] = v
+				}
+				o["table"] = t
+			}
+		}
+	})
+	o["panic"], o["panicMsg"] = p, pmsg
+	o["err"] = derr != nil
+	o["errNonEmpty"] = derr != nil && derr.Error() != ""
+	if derr != nil {
+		c.count("rejected", 1)
+	}
+	if p {
+		c.count("panics", 1)
+	}
+	return o
+}
+
 // runDecoders: one case = one response (a list of resource slots) of one type through the real decoder.
 // pMut = percentage of responses that get an extra mutated / wrongly typed slot.
 func runDecoders(c *ctx, types []string, pMut int, n int) {
@@ -81,67 +146,11 @@ func runDecoders(c *ctx, types []string, pMut int, n int) {
 				slots = append(slots, ndsSlotTree(a))
 			}
 		}
-		// the real decoder
-		o := obj{}
-		var derr error
-		p, pmsg := recoverTo(func() {
-			switch rt {
-			case "lds":
-				m, err := xdsresource.UnmarshalLDS(anys)
-				derr = err
-				e := obj{}
-				for k, v := range m {
-					e[k] = listenerSummary(v)
-				}
-				o["entries"] = e
-			case "rds":
-				m, err := xdsresource.UnmarshalRDS(anys)
-				derr = err
-				e := obj{}
-				for k, v := range m {
-					e[k] = routeCfgSummary(v.(*xdsresource.RouteConfigResource))
-				}
-				o["entries"] = e
-			case "cds":
-				m, err := xdsresource.UnmarshalCDS(anys)
-				derr = err
-				e := obj{}
-				for k, v := range m {
-					e[k] = clusterSummary(v.(*xdsresource.ClusterResource))
-				}
-				o["entries"] = e
-			case "eds":
-				m, err := xdsresource.UnmarshalEDS(anys)
-				derr = err
-				e := obj{}
-				for k, v := range m {
-					e[k] = obj{"eps": endpointsSummary(v.(*xdsresource.EndpointsResource))}
-				}
-				o["entries"] = e
-			case "nds":
-				nt, err := xdsresource.UnmarshalNDS(anys)
-				derr = err
-				if nt != nil {
-					t := obj{}
-					for k, v := range nt.NameTable {
-						if v == nil {
-							v = []string{}
-						}
-						t[k] = v
-					}
-					o["table"] = t
-				}
-			}
-		})
-		o["panic"], o["panicMsg"] = p, pmsg
-		o["err"] = derr != nil
-		o["errNonEmpty"] = derr != nil && derr.Error() != ""
-		if derr != nil {
-			c.count("rejected", 1)
-		}
-		if p {
-			c.count("panics", 1)
-		}
+		// the real decoder; a second delivery of the same resources (the control plane re-sends
+		// what it was refused) must be judged exactly like the first: nothing a decoder remembers
+		// from one response may change what it says about the next
+		again := g.r.chance(25)
+		o := decodeObs(c, rt, anys)
 		c.count("type="+rt, 1)
 		// regular expressions that occur in the trees (mutations can alter them): does regexp.Compile accept them?
 		comp := append([]interface{}{}, compiles...)
@@ -168,6 +177,10 @@ func runDecoders(c *ctx, types []string, pMut int, n int) {
 		}
 		walk(slots)
 		c.emit(obj{"op": "decode", "rt": rt, "slots": slots, "compiles": comp, "obs": o})
+		if again {
+			c.count("redelivered", 1)
+			c.emit(obj{"op": "decode", "rt": rt, "slots": slots, "compiles": comp, "obs": decodeObs(c, rt, anys), "redelivery": true})
+		}
 	}
 	for k, v := range g.cover {
 		c.count("gen:"+k, v)
